@@ -50,6 +50,69 @@ def explore(ctx):
         ctx.sample({'transformations_checked': stats['registrations'], 'strict_exceptions': sorted(strict)})
     except Exception as e:
         ctx.broke('table-evaluation', 'Gen.ClangDelta', repr(e)[:2000])
+    try:
+        sensitivity(ctx)
+    except Exception as e:      # evidence only
+        ctx.extra['extractor_sensitivity'] = {'error': repr(e)[:500]}
+
+
+def sensitivity(ctx):
+    """How sharp is the extractor (the only tie)?  Seed protocol-breaking edits into a scratch COPY of
+    clang_delta/ (never into the repository) and see whether extractor + Coq checker notice each.
+    Reported in the evidence only: a survivor is a blind spot of the tie, not a defect of cvise."""
+    import os
+    import shutil
+    from gen import clangdelta
+    src = clangdelta.CD
+    dst = os.path.join(ctx.tmp, 'clang_delta_copy')
+    shutil.copytree(src, dst)
+    old = clangdelta.CD
+    rows, meta = [], []
+    try:
+        clangdelta.CD = dst
+        clangdelta._FILE_CACHE.clear()
+        mut, _ = clangdelta.mutating_helpers()
+        regs = clangdelta.registrations()
+        muts = [('drop-query-return', r'if\s*\(\s*QueryInstanceOnly\s*\)\s*(?:\{\s*return\s*;\s*\}|return\s*;)', ''),
+                ('drop-max-instance-error', r'TransError\s*=\s*TransMaxInstanceError\s*;', ''),
+                ('continue-after-max-instance-error', r'(TransError\s*=\s*TransMaxInstanceError\s*;\s*)return\s*;', r'\1')]
+        limit = 20 if ctx.quick() else len(regs)
+        for name, cls, f in regs[:limit]:
+            path = os.path.join(dst, cls + '.cpp')
+            orig = open(path).read()
+            m0 = re.search(r'void\s+' + re.escape(cls) + r'::HandleTranslationUnit', orig)
+            if not m0:
+                continue
+            for mname, pat, rep in muts:
+                head, body = orig[:m0.start()], orig[m0.start():]
+                new_body, n = re.subn(pat, rep, body, count=1)
+                if n == 0:
+                    continue
+                with open(path, 'w') as fh:
+                    fh.write(head + new_body)
+                clangdelta._FILE_CACHE.clear()
+                try:
+                    nop, term = clangdelta.skeleton_of(name, cls, mut)
+                    rows.append(f'(negb (bounded {nop} {term} && protocol_strict {nop} {term}))')
+                    meta.append((name, mname))
+                except Exception as e:      # fail-closed extractor: noticing by refusing counts
+                    meta.append((name, mname + ':extractor-refused'))
+                    rows.append('true')
+            with open(path, 'w') as fh:
+                fh.write(orig)
+    finally:
+        clangdelta.CD = old
+        clangdelta._FILE_CACHE.clear()
+        shutil.rmtree(dst, ignore_errors=True)
+    if not rows:
+        return
+    res = coq.eval_terms('c19sens', IMPORTS, [], ['[' + '; '.join(rows) + ']'])
+    flags = re.findall(r'true|false', res[0])
+    killed = sum(1 for f in flags if f == 'true')
+    surv = [f'{n}:{m}' for (n, m), f in zip(meta, flags) if f != 'true']
+    ctx.extra['extractor_sensitivity'] = {'seeded_edits': len(flags), 'noticed': killed, 'survivors': surv[:40]}
+    ctx.count('extractor-sensitivity:noticed', killed)
+    ctx.count('extractor-sensitivity:survived', len(flags) - killed)
 
 
 def replay(ctx, payload):
